@@ -11,6 +11,83 @@ import (
 // where x is an abstract string assumed to need no escaping (it stands for "the decoded string").
 func JSONString(x Str) Bytes { return Bytes{S: Cat(Cat(Lit("\""), x), Lit("\""))} }
 func JSONList1(x Str) Bytes  { return Bytes{S: Cat(Cat(Lit("[\""), x), Lit("\"]"))} }
+
+// JSONList builds ["x1","x2",...] (strings that need no escaping).
+func JSONList(xs ...Str) Bytes {
+	parts := []Str{Lit("[\"")}
+	for i, x := range xs {
+		if i > 0 {
+			parts = append(parts, Lit("\",\""))
+		}
+		parts = append(parts, x)
+	}
+	parts = append(parts, Lit("\"]"))
+	return Bytes{S: Cat(parts...)}
+}
+
+// jsonListElems recognises ["x1","x2",...] with two or more elements, concrete or with symbolic elements, and returns the elements.
+func jsonListElems(b Bytes) ([]Str, bool) {
+	if c, isC := b.S.Concrete(); isC {
+		if len(c) < 4 || c[:2] != "[\"" || c[len(c)-2:] != "\"]" {
+			return nil, false
+		}
+		var out []Str
+		for _, e := range splitLit(c[2:len(c)-2], "\",\"") {
+			for _, r := range e {
+				if r == '"' || r == '\\' || r == ',' || r == '[' || r == ']' {
+					return nil, false
+				}
+			}
+			out = append(out, Lit(e))
+		}
+		return out, len(out) >= 2
+	}
+	p := b.S.P
+	if len(p) < 3 || p[0].Hole != nil || p[len(p)-1].Hole != nil || p[0].Lit != "[\"" || p[len(p)-1].Lit != "\"]" {
+		return nil, false
+	}
+	var out []Str
+	cur := Str{}
+	for _, pc := range p[1 : len(p)-1] {
+		if pc.Hole == nil && pc.Lit == "\",\"" {
+			out = append(out, cur)
+			cur = Str{}
+			continue
+		}
+		if pc.Hole == nil {
+			for _, r := range pc.Lit {
+				if r == '"' || r == ',' {
+					return nil, false // separators fused with element text: outside the model
+				}
+			}
+		}
+		cur.P = append(cur.P, pc)
+	}
+	out = append(out, cur)
+	return out, len(out) >= 2
+}
+
+func splitLit(s, sep string) []string {
+	var out []string
+	for {
+		i := indexOf(s, sep)
+		if i < 0 {
+			return append(out, s)
+		}
+		out = append(out, s[:i])
+		s = s[i+len(sep):]
+	}
+}
+
+func indexOf(s, sep string) int {
+	for i := 0; i+len(sep) <= len(s); i++ {
+		if s[i:i+len(sep)] == sep {
+			return i
+		}
+	}
+	return -1
+}
+
 func JSONLit(text string) Bytes {
 	return Bytes{S: Lit(text)}
 }
@@ -76,6 +153,12 @@ func jsonUnmarshalModel(m *Machine, a []Value) Value {
 		panic(m.undecided("encoding/json.Unmarshal on %T (no summary)", a[0]))
 	}
 	kind, content, ok := jsonShape(data)
+	var elems []Str
+	if !ok {
+		if elems, ok = jsonListElems(data); ok {
+			kind = "listN"
+		}
+	}
 	if !ok {
 		panic(m.undecided("encoding/json.Unmarshal on a document shape outside the model (%s)", data.S.Debug()))
 	}
@@ -92,6 +175,9 @@ func jsonUnmarshalModel(m *Machine, a []Value) Value {
 		return mkErr(Lit("json: Unmarshal(nil)"))
 	}
 	m.Assume("encoding/json.Unmarshal is modelled for the document shapes \"s\", [\"s\"], true, false, {} into *string, *[]string, *bool and *struct targets")
+	if kind == "listN" {
+		content = Str{}
+	}
 	mismatch := func() Value {
 		return mkErr(Lit("json: cannot unmarshal " + kind + " into Go value of type " + pt.Elem().String()))
 	}
@@ -117,6 +203,14 @@ func jsonUnmarshalModel(m *Machine, a []Value) Value {
 	case *types.Slice:
 		if b, isB := u.Elem().Underlying().(*types.Basic); isB && b.Kind() == types.String && kind == "list1" {
 			*ptr.P = m.NewSliceOf(u.Elem(), content)
+			return Iface{}
+		}
+		if b, isB := u.Elem().Underlying().(*types.Basic); isB && b.Kind() == types.String && kind == "listN" {
+			var vs []Value
+			for _, e := range elems {
+				vs = append(vs, e)
+			}
+			*ptr.P = m.NewSliceOf(u.Elem(), vs...)
 			return Iface{}
 		}
 		return mismatch()
